@@ -5,7 +5,7 @@ cd "$(dirname "$0")"
 export GOFLAGS=-mod=mod GOPROXY=off GOSUMDB=off GOTOOLCHAIN=local
 mkdir -p .build evidence replays
 # regenerate every Gen/*.lean from /repo so that the whole library builds
-(cd go && for w in $(go run ./extract list /repo /verif 2>/dev/null); do go run ./extract "$w" /repo /verif || true; done)
+(cd go && for d in extract/*/; do w=$(basename "$d"); go run "./extract/$w" "$w" /repo /verif || true; done)
 (cd lean && lake build KafkaVerif Oracle $(grep -E '^name = "oracle_' lakefile.toml | sed 's/name = "\(.*\)"/\1/') 2>&1 | tail -5) || true
 (cd go && go build -tags verif ./... ) || true
 echo setup done
